@@ -36,7 +36,7 @@ func argsChecked(o *Obs) int64 {
 
 func runC04(c *eng.Ctx) {
 	cr := &caseRunner{c: c, prop: "C04"}
-	defer func() { RunEqualValues(c, "C04", cr.next); RunZeroValuedOutputs(c, cr.next) }()
+	defer func() { RunEqualValues(c, "C04", cr.next); RunZeroValuedOutputs(c, cr.next); RunVariadic(c, "C04", cr.next) }()
 	finish := func(idx int, r *Run, kind string) {
 		o := Digest(r)
 		report(c, "C04", idx, r, MonC04(r, o))
@@ -730,7 +730,7 @@ func acceptFeature(m *Model, err error) string {
 
 func runC08(c *eng.Ctx) {
 	cr := &caseRunner{c: c, prop: "C08"}
-	defer func() { RunLateRegistration(c, cr.next); RunBuildTimeScope(c, cr.next) }()
+	defer func() { RunLateRegistration(c, cr.next); RunBuildTimeScope(c, cr.next); RunVariadic(c, "C08", cr.next) }()
 	exec := func(idx int, s *Spec, m *Model, kind string) {
 		r := NewRun(s, m, nil, nil)
 		r.Build()
